@@ -597,6 +597,28 @@ def instanceClassLookup (gc1 : Ans) (mof : Option (Except PyExc Unit)) (gc2 : An
         | none => .ok ()
     else .error .mofRepositoryError
 
+/-- mirrors _mof_compiler.py: _cim_object — the exceptions the CIM object constructors and cimvalue() raise for
+    values that are invalid or do not match the declared type are translated to MOFParseError; a result and any
+    other exception pass unchanged.  Used by p_propertyDeclaration_2/4/6/8, p_referenceDeclaration, p_qualifier and
+    p_qualifierDeclaration; p_instanceDeclaration has the same `except` clause. -/
+def cimObject {α} (r : Except PyExc α) : Except PyExc α :=
+  match r with
+  | .error .valueError => .error .mofParseError
+  | .error .typeError => .error .mofParseError
+  | .error .overflowError => .error .mofParseError
+  | r => r
+
+/-- mirrors _mof_compiler.py: p_instanceDeclaration, value of a property with EmbeddedInstance/EmbeddedObject
+    qualifier: a NULL/empty value is stored as it is, a value that is not a string or list of strings is a
+    MOFParseError (after the fix), otherwise the outcome is that of the nested compile_embedded_value
+    (`nested`), where an empty result is a MOFParseError and ValueError/TypeError/OverflowError are translated -/
+def embeddedValue (truthy allStrings : Bool) (nested : Except PyExc Nat) : Except PyExc Unit :=
+  if !truthy then .ok ()
+  else if !allStrings then .error .mofParseError
+  else cimObject (match nested with
+    | .error e => .error e
+    | .ok n => if n = 0 then .error .mofParseError else .ok ())
+
 /-- the exception classes C09 allows to leave compile_string / compile_file -/
 def allowed : PyExc → Bool
   | .mofCompileError | .mofParseError | .mofDependencyError | .mofRepositoryError | .osError => true
